@@ -18,7 +18,7 @@ func init() {
 		Explanation: "Static decision of the structural clauses of C19. R1: the typed retrieval helpers return nil when retrieval fails and use comma-ok assertions. R2 (NIL): at every call site of those helpers in the library, every use of the result " +
 			"(method call, field access, append to a result) lies on the non-nil edge. R3: whatever the tables return passed the semantic predicate (shared with C01.R1/C02.R1), hence results under faults are a subset of the truth. " +
 			"R4: the backing list is consulted only on a cache miss, a hit returns the cached rule, and nothing except the retrieval insert ever writes the cache (rules once materialised keep being served). " +
-			"R5: errors of Seek and of the line reader reach the caller (io.EOF excepted). R6: the retrieval path contains no unchecked type assertion or explicit panic. R9: no value returned next to an error is used on a path where that error was discarded or is non-nil. The rule cache is located by type.",
+			"R5: errors of Seek and of the line reader reach the caller (io.EOF excepted). R6: the retrieval path contains no unchecked type assertion or explicit panic. R9: no value returned next to an error is used on a path where that error was discarded or is non-nil. The rule cache is located by type. R6 also: a map entry of pointer or interface type fetched without the presence flag is not used as a receiver or dereferenced without a nil test. R10 imports C12.R7.",
 		Trusted: []string{"the operating system's behaviour on a closed/replaced descriptor is an error return, not a crash (outside the repository)"},
 	})
 }
